@@ -125,7 +125,12 @@ def composite_circuits(env):
         c.herald(0, 2, 0)
         return c
 
-    return [("unitary_plus", unitary_plus), ("one_level", one_level), ("two_subs_and_direct", two_subs_and_direct), ("nested", nested),
+    def zero_loss_elements():  # lossless, yet it holds loss elements (value 0, plain and as a Parameter): U_full is larger than U
+        c = lw.Unitary(kernel.haar(3, env.seed + 360)); c.loss(1, 0); c.bs(0, reflectivity=env.R2, loss=lw.Parameter(0.0))
+        c.ps(2, env.PH[0]); c.herald(1, 2, 0)
+        return c
+
+    return [("zero_loss_elements", zero_loss_elements), ("unitary_plus", unitary_plus), ("one_level", one_level), ("two_subs_and_direct", two_subs_and_direct), ("nested", nested),
             ("grouped_plain", grouped_plain), ("sub_only", sub_only)]
 
 
@@ -133,7 +138,7 @@ def check_default(label, u, heralds, env, acc):
     case = {"unitary": label, "heralds": heralds, "seed": env.seed}
     if u is None:
         c = dict(composite_circuits(env))[label[1]]()
-        u = c.U_full
+        u = c.U              # n x n; U_full is larger when the circuit holds (zero-valued) loss elements
     else:
         c = lw.Unitary(u.copy())
         for h in heralds:
